@@ -271,6 +271,14 @@ def campaign(c):
         reads = [r.choice([0, 1, 2, 7, 100, r.below(50)]) for _ in range(r.below(8))]
         lines = [HEAD, 'let b = io::bufio("|%s|");' % data.hex() if data else 'let b = io::bufio();']
         for k in reads: lines.append('eth::frame("|000000000001|", "|000000000002|", b.read(%d));' % k)
+        if i % 2:
+            # the same reads, several to a call (in one argument list, nested in a join helper): still consecutive slices, in the
+            # order they are written
+            lines = lines[:2]; j = 0; groups = []
+            while j < len(reads):
+                g = reads[j:j + 1 + r.below(3)]; j += len(g); groups.append(g)
+                call = ', '.join('b.read(%d)' % k for k in g)
+                lines.append('eth::frame("|000000000001|", "|000000000002|", %s);' % (call if r.chance(1, 2) else 'text::concat(%s)' % call))
         lines.append('eth::frame("|000000000001|", "|000000000002|", b.read_all());')
         lines.append('eth::frame("|000000000001|", "|000000000002|", b.read_all(), b.read(3));')
         src = ('\n'.join(lines) + '\n').encode()
@@ -278,9 +286,19 @@ def campaign(c):
         progdiff.compare(c, src, impl, model, 'bufio')
         if impl['outcome'][0] == 'success':
             got = [x[1][14:] for x in progdiff.pcap_records(impl['file'])]
+            if i % 2:
+                # regroup: one record per call, holding the slices of its reads back to back
+                flat, pos2 = [], 0
+                for g in groups:
+                    w = b''
+                    for k in g: w += data[pos2:pos2 + k]; pos2 += len(data[pos2:pos2 + k])
+                    flat.append(w)
+                if got[:len(groups)] != flat:
+                    c.violation('payload:bufio', 'several reads in one call do not hand out consecutive slices in the order written', dict(src=src.decode()[:2000]))
+                got = [None] * len(reads) + got[len(groups):]
             pos, ok = 0, len(got) == len(reads) + 2
             for k, g in zip(reads, got):
-                ok = ok and g == data[pos:pos + k]; pos += len(data[pos:pos + k])
+                ok = ok and (g is None or g == data[pos:pos + k]); pos += len(data[pos:pos + k])
             ok = ok and got[len(reads)] == data[pos:] and got[-1] == b''
             if not ok:
                 c.violation('payload:bufio', 'buffered reads do not hand out consecutive non-overlapping slices that add up to the buffer', dict(src=src.decode()[:2000]))
